@@ -7,6 +7,7 @@
 import AgeModel.Exec.KeyFileExec
 import AgeModel.Extracted.Consts
 import Proofs.GoTieKeyFile
+import Proofs.GoTieCliKeyFile
 namespace AgeModel
 namespace Tie.C18
 
@@ -39,6 +40,35 @@ theorem parseRecipients_tie {κ : Type} (P : Bytes → Go.M (κ × Option Go.Err
       | .ok ks => (ks, none)
       | .error e => ([], GoTie.rcFileErr e)) :=
   GoTie.parseRecipients_tie P hP f
+
+/-! ## The command line tool's own parsers (cmd/age/parse.go)
+
+`parseIdentities` (identity files, plugin identities included) and the line loop of
+`parseRecipientsFile` (`-R`) are translated too — the latter from the statement after the file has
+been opened (the `-`/stdin bookkeeping, `os.Open` and the deferred `Close` are outside the
+fragment), with `parseRecipient`, `sshKeyType`, `ssh.ParseAuthorizedKey` as parameters and
+`warningf` appending to an explicit log. They compute `KeyFile.parseIdentities` and
+`KeyFile.cliParseRecipientsFile`: the model's keys or the model's error (line number included), and
+EXACTLY the model's warnings — a line that fails to parse is skipped only under `KeyFile.skipCond`
+(an SSH key type age does not support, or a well-formed `ssh-rsa` key age refuses), each time with
+one warning naming its line; a corrupted `ssh-rsa` / `ssh-ed25519` line rejects the file (the
+repair of finding F9 is thereby pinned by a theorem about the source). -/
+
+theorem cli_parseIdentities_tie {ι : Type} (P : Bytes → Go.M (ι × Option Go.Err))
+    (hP : ∀ l, ∃ r, P l = .ok r) (f : Bytes) :
+    Extracted.main_parseIdentities P f =
+      .ok (GoTie.modelOut "main.parseIdentities" (KeyFile.parseIdentities (GoTie.lineKey P) 65536 16777216 f)) :=
+  GoTie.cli_parseIdentities_tie P hP f
+
+theorem cli_parseRecipientsFile_tie {ρ π τ : Type} (E : GoTie.RecFileEnv ρ π τ) (name f : Bytes) (t0 : τ) :
+    ∃ (res : List ρ × Option Go.Err) (t' : τ),
+      Extracted.main_parseRecipientsFile E.P E.K E.A E.W name f t0 = .ok (res.1, res.2, t') ∧
+      let o := KeyFile.cliParseRecipientsFile (GoTie.lineKey E.P) E.sniff E.valid 8192 65536 16777216 f
+      E.absT t' = E.absT t0 ++ o.skipped ∧
+      res = match o.res with
+            | .ok ks => (ks, none)
+            | .error e => ([], GoTie.recFileErr e) :=
+  GoTie.cli_parseRecipientsFile_tie E name f t0
 
 /-- the model parameters used above are the ones the driver runs the model with -/
 theorem model_parameters : Exec.KeyFile.limit = 16777216 ∧ Exec.KeyFile.maxTok = 65536 ∧ Go.maxScanTokenSize = 65536 := by decide
